@@ -188,6 +188,16 @@ func (s *vfC15Server) send(w http.ResponseWriter, a *vfC15Act, body []byte, upto
 
 // ---- world ----
 
+// vfC15TB is what the world needs of a test handle (*rapid.T, *testing.T).
+type vfC15TB interface {
+	Fatalf(format string, args ...any)
+}
+
+// vfC15SigStale is the signature of the finding "a list that was refreshed
+// successfully does not come into force when, in the same refresh, every list
+// of the other kind failed".
+const vfC15SigStale = "engines-not-rebuilt-when-all-lists-of-other-kind-fail"
+
 type vfC15List struct {
 	Idx   int
 	ID    rulelist.URLFilterID
@@ -255,13 +265,7 @@ type vfC15Pending struct {
 	open  map[int]bool
 	newNF map[int]vfC15Expect
 	raw   map[int][]byte
-	// rebuildMust: the engines must serve the stored forms of all lists.
-	// rebuildMay: they may (either all lists as before, or all as stored).
-	rebuildMust bool
-	// groupAllFailed: every targeted list of a selected kind (block / allow)
-	// failed.
-	groupAllFailed bool
-	outcomes       map[int]string
+	outcomes map[int]string
 }
 
 type vfC15World struct {
@@ -282,7 +286,7 @@ func (w *vfC15World) filterPath(l *vfC15List) string {
 
 // newFilter builds a DNSFilter over the data directory the way the program
 // does at start-up.
-func (w *vfC15World) newFilter(t *rapid.T) {
+func (w *vfC15World) newFilter(t vfC15TB) {
 	w.handlers = map[string]http.HandlerFunc{}
 	conf := &Config{
 		DataDir:        w.dir,
@@ -559,7 +563,7 @@ func (w *vfC15World) drawAct(t *rapid.T, label string, l *vfC15List) (a *vfC15Ac
 }
 
 // install makes the source of l behave as a says.
-func (w *vfC15World) install(t *rapid.T, l *vfC15List, a *vfC15Act) {
+func (w *vfC15World) install(t vfC15TB, l *vfC15List, a *vfC15Act) {
 	l.act = a
 	if !l.Local {
 		w.srv.mu.Lock()
@@ -587,7 +591,7 @@ func (w *vfC15World) install(t *rapid.T, l *vfC15List, a *vfC15Act) {
 
 // expect computes, from the statement alone, what a refresh of l with its
 // installed action must do, and records it in p.
-func (w *vfC15World) expect(t *rapid.T, p *vfC15Pending, l *vfC15List) (outcome string) {
+func (w *vfC15World) expect(t vfC15TB, p *vfC15Pending, l *vfC15List) (outcome string) {
 	a := l.act
 	switch a.Kind {
 	case "ok", "redirect_ok", "html", "binary":
@@ -636,7 +640,7 @@ type vfC15Status struct {
 	} `json:"whitelist_filters"`
 }
 
-func (w *vfC15World) call(t *rapid.T, method, path string, body []byte) (code int, resp []byte) {
+func (w *vfC15World) call(t vfC15TB, method, path string, body []byte) (code int, resp []byte) {
 	h := w.handlers[method+" "+path]
 	if h == nil {
 		t.Fatalf("VERIF-INCONCLUSIVE handler %s %s is not registered", method, path)
@@ -656,7 +660,7 @@ func (w *vfC15World) call(t *rapid.T, method, path string, body []byte) (code in
 	return rec.Code, rec.Body.Bytes()
 }
 
-func (w *vfC15World) statusCounts(t *rapid.T) (counts map[int]int) {
+func (w *vfC15World) statusCounts(t vfC15TB) (counts map[int]int) {
 	code, body := w.call(t, http.MethodGet, "/control/filtering/status", nil)
 	if code != http.StatusOK {
 		t.Fatalf("GET /control/filtering/status: %d %s", code, body)
@@ -694,7 +698,7 @@ func (w *vfC15World) checksums() (sums map[int]uint32) {
 
 // inForce returns the probe names of l that the engines currently decide by a
 // rule of l.
-func (w *vfC15World) inForce(t *rapid.T, l *vfC15List) (hosts []string) {
+func (w *vfC15World) inForce(t vfC15TB, l *vfC15List) (hosts []string) {
 	setts := &Settings{FilteringEnabled: true, ProtectionEnabled: true}
 	for ver := 0; ver <= l.Ver; ver++ {
 		host := l.probeHost(ver)
@@ -769,11 +773,11 @@ func vfC15Leftovers(dir string) (names []string) {
 
 // verify compares the observable state with the model after an action (or at
 // the start).
-func (w *vfC15World) verify(t *rapid.T) {
+func (w *vfC15World) verify(t vfC15TB) {
 	p := w.pending
 	w.pending = nil
 	if p == nil {
-		p = &vfC15Pending{what: "no action", changed: map[int]bool{}, open: map[int]bool{}}
+		p = vfC15NewPending("no action")
 	}
 
 	// 1. Files on disk.
@@ -847,14 +851,6 @@ func (w *vfC15World) verify(t *rapid.T) {
 		}
 	}
 
-	if len(p.changed) > 0 {
-		if p.groupAllFailed {
-			vfC15.Class("refresh:changed_while_other_kind_all_failed")
-		} else {
-			p.rebuildMust = true
-		}
-	}
-
 	// 2. No pending file left behind.
 	left := append(vfC15Leftovers(filepath.Join(w.dir, "filters")), vfC15Leftovers(os.TempDir())...)
 	if len(left) != 0 {
@@ -902,34 +898,28 @@ func (w *vfC15World) verify(t *rapid.T) {
 		}
 	}
 
-	// 4. Rules in force.
-	asBefore, asStored := true, true
-	var obs [][]string
+	// 4. Rules in force: for every list those of the last successfully stored
+	// form.  A list whose refresh failed (or was not due, or brought nothing
+	// new) keeps exactly what it had; a list that was replaced serves the new
+	// form.
 	for _, l := range w.lists {
-		o := w.inForce(t, l)
-		obs = append(obs, o)
-		asBefore = asBefore && vfC15SameSet(o, l.probesOf(l.Force))
-		asStored = asStored && vfC15SameSet(o, l.probesOf(l.NF))
-	}
-	if !asStored && (p.rebuildMust || !asBefore) {
-		for i, l := range w.lists {
-			wantS, wantB := l.probesOf(l.NF), l.probesOf(l.Force)
-			if vfC15SameSet(obs[i], wantS) || (!p.rebuildMust && vfC15SameSet(obs[i], wantB)) {
-				continue
-			}
-			t.Fatalf("after %s: rules in force of list %d (%s): probes decided by the list %v\nwant %v (last successfully stored form)%s\n(outcome expected: %s; source behaviour: %s, body %s)",
-				p.what, l.ID, l.kind(), obs[i], wantS,
-				map[bool]string{true: "", false: fmt.Sprintf(" or %v (as before this refresh)", wantB)}[p.rebuildMust],
-				p.outcomes[l.Idx], l.actName(), vfC15Short(l.actBody()))
-		}
-		t.Fatalf("after %s: rules in force are a mixture of before/after states across lists: %v", p.what, obs)
-	}
-	if asStored {
-		for _, l := range w.lists {
+		obs, want, before := w.inForce(t, l), l.probesOf(l.NF), l.probesOf(l.Force)
+		if vfC15SameSet(obs, want) {
 			l.Force = l.NF
+
+			continue
 		}
-	} else {
-		vfC15.Class("refresh:engines_serve_previous_forms")
+
+		how := "the successfully stored form did not come into force"
+		if !p.changed[l.Idx] {
+			how = "the rules in force changed although this list was not replaced"
+			if vfC15SameSet(obs, before) {
+				how = "an earlier successfully stored form is still not in force"
+			}
+		}
+		t.Fatalf("after %s: rules in force of list %d (%s): %s\nprobe names decided by the list: %v\nwant %v (last successfully stored form %s)\nbefore this action: %v\n(outcomes expected of this refresh: %v; source behaviour of this list: %s, body %s)",
+			p.what, l.ID, l.kind(), how, obs, want, vfC15Short(l.NF), before,
+			p.outcomes, l.actName(), vfC15Short(l.actBody()))
 	}
 }
 
@@ -951,24 +941,71 @@ func (l *vfC15List) actBody() []byte {
 
 // ---- actions ----
 
-// refresh prepares the sources of the targeted lists, computes what must
-// happen and runs the refresh.
-func (w *vfC15World) refresh(t *rapid.T, how string, block, allow, force bool) {
-	w.refreshs++
-	label := fmt.Sprintf("r%d", w.refreshs)
-	p := &vfC15Pending{
-		what:    fmt.Sprintf("refresh #%d (%s block=%v allow=%v force=%v)", w.refreshs, how, block, allow, force),
+// vfC15Plan is one refresh: how it is started, which kinds it covers, which
+// lists are due and what every source does.
+type vfC15Plan struct {
+	How          string
+	Block, Allow bool
+	Force        bool
+	Due          map[int]bool
+	Acts         map[int]*vfC15Act
+}
+
+func (pl *vfC15Plan) selected(l *vfC15List) bool {
+	return (l.Allow && pl.Allow) || (!l.Allow && pl.Block)
+}
+
+// outcomes computes, for the plan, the expected outcome per targeted list and
+// whether the open shape vfC15SigStale is present.
+func (w *vfC15World) outcomes(t vfC15TB, pl *vfC15Plan, p *vfC15Pending) (staleShape bool) {
+	anyChanged, kindAllFailed := false, false
+	for _, grp := range []bool{false, true} {
+		targeted, failed := 0, 0
+		for _, l := range w.lists {
+			if l.Allow != grp || !pl.selected(l) {
+				continue
+			}
+			l.act = pl.Acts[l.Idx]
+			if !pl.Due[l.Idx] {
+				p.outcomes[l.Idx] = "not_due"
+
+				continue
+			}
+
+			targeted++
+			out := w.expect(t, p, l)
+			p.outcomes[l.Idx] = out
+			switch out {
+			case "fail":
+				failed++
+			case "changed", "checksum_coincidence":
+				anyChanged = true
+			}
+		}
+		if targeted > 0 && failed == targeted {
+			kindAllFailed = true
+		}
+	}
+
+	return anyChanged && kindAllFailed
+}
+
+func vfC15NewPending(what string) *vfC15Pending {
+	return &vfC15Pending{
+		what:    what,
 		changed: map[int]bool{}, open: map[int]bool{}, newNF: map[int]vfC15Expect{}, raw: map[int][]byte{},
 		outcomes: map[int]string{},
 	}
+}
 
-	// Which lists are due (scheduled refresh): set by shifting the stored
-	// instants, never by waiting (DESIGN 3.4).
-	due := map[int]bool{}
+// run executes a planned refresh: sets the due instants by shifting the stored
+// ones (never by waiting, DESIGN 3.4), installs the source behaviours, records
+// what must happen and starts the refresh.
+func (w *vfC15World) run(t vfC15TB, pl *vfC15Plan) {
+	w.refreshs++
+	p := vfC15NewPending(fmt.Sprintf("refresh #%d (%s block=%v allow=%v force=%v)", w.refreshs, pl.How, pl.Block, pl.Allow, pl.Force))
+
 	now := time.Now()
-	for _, l := range w.lists {
-		due[l.Idx] = force || rapid.IntRange(0, 3).Draw(t, fmt.Sprintf("%s_l%d_due", label, l.Idx)) != 0
-	}
 	w.d.conf.filtersMu.Lock()
 	shift := func(fs []FilterYAML) {
 		for i := range fs {
@@ -976,7 +1013,7 @@ func (w *vfC15World) refresh(t *rapid.T, how string, block, allow, force bool) {
 				if l.ID != fs[i].ID {
 					continue
 				}
-				if due[l.Idx] {
+				if pl.Due[l.Idx] {
 					fs[i].LastUpdated = now.Add(-25 * time.Hour)
 				} else {
 					fs[i].LastUpdated = now
@@ -988,29 +1025,40 @@ func (w *vfC15World) refresh(t *rapid.T, how string, block, allow, force bool) {
 	shift(w.d.conf.WhitelistFilters)
 	w.d.conf.filtersMu.Unlock()
 
-	anyChanged, anyOpen := false, false
-	groupAllFailed := false
-	for _, grp := range []bool{false, true} {
-		if (grp && !allow) || (!grp && !block) {
-			continue
+	for _, l := range w.lists {
+		if pl.selected(l) {
+			w.install(t, l, pl.Acts[l.Idx])
 		}
+	}
+	if w.outcomes(t, pl, p) {
+		vfC15.Class("refresh:changed_while_other_kind_all_failed")
+	}
+	switch {
+	case pl.How == "api":
+		vfC15.Class("refresh:mode:api")
+	case pl.Force:
+		vfC15.Class("refresh:mode:forced")
+	default:
+		vfC15.Class("refresh:mode:scheduled")
+	}
+	if pl.Block && pl.Allow {
+		vfC15.Class("refresh:both_kinds")
+	}
+
+	for _, grp := range []bool{false, true} {
 		targeted, failed := 0, 0
 		for _, l := range w.lists {
-			if l.Allow != grp {
+			if l.Allow != grp || !pl.selected(l) {
 				continue
 			}
-			a := w.drawAct(t, fmt.Sprintf("%s_l%d", label, l.Idx), l)
-			w.install(t, l, a)
-			if !due[l.Idx] {
-				p.outcomes[l.Idx] = "not_due"
-				l.Hist = append(l.Hist, "not_due")
+			out, a := p.outcomes[l.Idx], pl.Acts[l.Idx]
+			if out == "not_due" {
+				l.Hist = append(l.Hist, out)
 
 				continue
 			}
 
 			targeted++
-			out := w.expect(t, p, l)
-			p.outcomes[l.Idx] = out
 			l.Hist = append(l.Hist, a.name()+"="+out)
 			vfC15.Class("refresh:act:" + a.name())
 			vfC15.Class("refresh:outcome:" + out)
@@ -1028,28 +1076,18 @@ func (w *vfC15World) refresh(t *rapid.T, how string, block, allow, force bool) {
 					vfC15.Class("refresh:fail_after_success")
 				}
 			case "changed":
-				anyChanged = true
 				if l.Stored {
 					vfC15.Class("refresh:replaces_existing")
 				}
-			case "checksum_coincidence":
-				anyOpen = true
 			}
 		}
-		if targeted > 0 && failed == targeted {
-			groupAllFailed = true
-		}
 		if failed > 0 && failed < targeted {
-			vfC15.Class("refresh:mixed_outcomes_in_group")
+			vfC15.Class("refresh:mixed_outcomes_in_kind")
+		}
+		if targeted > 0 && failed == targeted {
+			vfC15.Class("refresh:kind_all_failed")
 		}
 	}
-	// The engines must serve the new forms when a list changed; when at the
-	// same time every list of the other kind failed, the statement does not
-	// say whether the successful lists come into force (only that failed ones
-	// stay as they were): both are accepted and counted.
-	// (Decided in verify, once checksum coincidences are resolved.)
-	_, _ = anyChanged, anyOpen
-	p.groupAllFailed = groupAllFailed
 	w.pending = p
 
 	func() {
@@ -1059,8 +1097,8 @@ func (w *vfC15World) refresh(t *rapid.T, how string, block, allow, force bool) {
 			}
 		}()
 
-		if how == "api" {
-			body, _ := json.Marshal(map[string]bool{"whitelist": allow})
+		if pl.How == "api" {
+			body, _ := json.Marshal(map[string]bool{"whitelist": pl.Allow})
 			code, resp := w.call(t, http.MethodPost, "/control/filtering/refresh", body)
 			if code != http.StatusOK {
 				t.Fatalf("%s: POST /control/filtering/refresh: %d %s", p.what, code, resp)
@@ -1069,19 +1107,106 @@ func (w *vfC15World) refresh(t *rapid.T, how string, block, allow, force bool) {
 			return
 		}
 
-		if _, _, ok := w.d.tryRefreshFilters(block, allow, force); !ok {
+		if _, _, ok := w.d.tryRefreshFilters(pl.Block, pl.Allow, pl.Force); !ok {
 			t.Fatalf("VERIF-INCONCLUSIVE %s: refresh lock was held", p.what)
 		}
 	}()
 }
 
-func (w *vfC15World) restart(t *rapid.T) {
+// refresh draws a plan and runs it.
+func (w *vfC15World) refresh(t *rapid.T, how string, block, allow, force bool) {
+	label := fmt.Sprintf("r%d", w.refreshs+1)
+	pl := &vfC15Plan{How: how, Block: block, Allow: allow, Force: force, Due: map[int]bool{}, Acts: map[int]*vfC15Act{}}
+	for _, l := range w.lists {
+		pl.Due[l.Idx] = force || rapid.IntRange(0, 3).Draw(t, fmt.Sprintf("%s_l%d_due", label, l.Idx)) != 0
+	}
+	for _, l := range w.lists {
+		if pl.selected(l) {
+			pl.Acts[l.Idx] = w.drawAct(t, fmt.Sprintf("%s_l%d", label, l.Idx), l)
+		}
+	}
+
+	// A finding listed as open is kept out of the generated histories by
+	// construction (HARNESS_GUIDE rule 10): one list of a kind whose lists
+	// would all fail delivers its unchanged content instead.
+	if _, open := vfkit.KnownOpen("C15", vfC15SigStale); open {
+		probe := vfC15NewPending("plan")
+		if w.outcomes(t, pl, probe) {
+			vfC15.Excluded(vfC15SigStale)
+			for _, grp := range []bool{false, true} {
+				var first *vfC15List
+				allFailed := true
+				for _, l := range w.lists {
+					if l.Allow != grp || !pl.selected(l) || !pl.Due[l.Idx] {
+						continue
+					}
+					if first == nil {
+						first = l
+					}
+					allFailed = allFailed && probe.outcomes[l.Idx] == "fail"
+				}
+				if first == nil || !allFailed {
+					continue
+				}
+				a := &vfC15Act{Kind: "ok", Variant: "same", Ver: first.Ver, Body: first.LastRaw}
+				if !first.Stored {
+					a.Variant, a.Body = "empty", []byte("# nothing yet\n")
+				}
+				pl.Acts[first.Idx] = a
+			}
+		}
+	}
+
+	w.run(t, pl)
+}
+
+func (w *vfC15World) restart(t vfC15TB) {
 	w.d.Close()
 	w.newFilter(t)
-	w.pending = &vfC15Pending{
-		what: "restart", changed: map[int]bool{}, open: map[int]bool{}, rebuildMust: true, outcomes: map[int]string{},
-	}
+	w.pending = vfC15NewPending("restart")
 	vfC15.Class("refresh:restart")
+}
+
+// vfC15Spec describes one list of a world.
+type vfC15Spec struct {
+	Allow bool
+	Local bool
+}
+
+// vfC15NewWorld makes a data directory, a list server and a DNSFilter with the
+// given lists (block lists first).
+func vfC15NewWorld(t vfC15TB, specs []vfC15Spec) (w *vfC15World) {
+	dir, err := os.MkdirTemp("", "vfc15-")
+	if err != nil {
+		t.Fatalf("VERIF-INCONCLUSIVE temp dir: %v", err)
+	}
+	w = &vfC15World{dir: dir}
+	if err = os.Mkdir(filepath.Join(dir, "local"), 0o755); err != nil {
+		w.close()
+		t.Fatalf("VERIF-INCONCLUSIVE local dir: %v", err)
+	}
+
+	w.srv = &vfC15Server{acts: map[int]*vfC15Act{}, hits: map[int]int{}}
+	w.srv.srv = httptest.NewUnstartedServer(w.srv)
+	w.srv.srv.Start()
+	w.client = &http.Client{Timeout: 30 * time.Second, Transport: &http.Transport{}}
+
+	for i, sp := range specs {
+		l := &vfC15List{Idx: i + 1, ID: rulelist.URLFilterID(i + 1), Allow: sp.Allow, Local: sp.Local}
+		if l.Allow {
+			l.ID = rulelist.URLFilterID(100 + i)
+		}
+		if l.Local {
+			l.URL = filepath.Join(dir, "local", fmt.Sprintf("list%d.txt", l.Idx))
+		} else {
+			l.URL = fmt.Sprintf("%s/l/%d", w.srv.srv.URL, l.Idx)
+		}
+		w.lists = append(w.lists, l)
+	}
+
+	w.newFilter(t)
+
+	return w
 }
 
 // TestVFC15Refresh: histories of refreshes against scripted sources.
@@ -1093,40 +1218,17 @@ func TestVFC15Refresh(t *testing.T) {
 		s := vfC15
 		s.Eval()
 
-		dir, err := os.MkdirTemp("", "vfc15-")
-		if err != nil {
-			t.Fatalf("VERIF-INCONCLUSIVE temp dir: %v", err)
-		}
-		w := &vfC15World{dir: dir}
-		defer w.close()
-
-		if err = os.Mkdir(filepath.Join(dir, "local"), 0o755); err != nil {
-			t.Fatalf("VERIF-INCONCLUSIVE local dir: %v", err)
-		}
-
-		w.srv = &vfC15Server{acts: map[int]*vfC15Act{}, hits: map[int]int{}}
-		w.srv.srv = httptest.NewUnstartedServer(w.srv)
-		w.srv.srv.Config.ErrorLog = nil
-		w.srv.srv.Start()
-		w.client = &http.Client{Timeout: 30 * time.Second, Transport: &http.Transport{}}
-
 		nBlock := rapid.IntRange(1, 3).Draw(t, "block_lists")
 		nAllow := rapid.IntRange(0, 2).Draw(t, "allow_lists")
+		var specs []vfC15Spec
 		for i := 0; i < nBlock+nAllow; i++ {
-			l := &vfC15List{Idx: i + 1, ID: rulelist.URLFilterID(i + 1), Allow: i >= nBlock}
-			if l.Allow {
-				l.ID = rulelist.URLFilterID(100 + i)
-			}
-			l.Local = rapid.IntRange(0, 3).Draw(t, fmt.Sprintf("l%d_local", l.Idx)) == 0
-			if l.Local {
-				l.URL = filepath.Join(dir, "local", fmt.Sprintf("list%d.txt", l.Idx))
-			} else {
-				l.URL = fmt.Sprintf("%s/l/%d", w.srv.srv.URL, l.Idx)
-			}
-			w.lists = append(w.lists, l)
+			specs = append(specs, vfC15Spec{
+				Allow: i >= nBlock,
+				Local: rapid.IntRange(0, 3).Draw(t, fmt.Sprintf("l%d_local", i+1)) == 0,
+			})
 		}
-
-		w.newFilter(t)
+		w := vfC15NewWorld(t, specs)
+		defer w.close()
 
 		t.Repeat(map[string]func(*rapid.T){
 			"refresh_api_block": func(t *rapid.T) { w.refresh(t, "api", true, false, true) },
